@@ -80,6 +80,16 @@ def wiring(model):
     ih = init_helpers[0]
     w.initiate = ih
     w.threads = {}
+    # registries are the dict-valued fields of the fabric (assigned {} / dict() in __init__)
+    dict_fields = set()
+    init = fab.methods.get('__init__')
+    for n in walk_shallow(init.node):
+        if isinstance(n, ast.Assign) and (isinstance(n.value, ast.Dict) or (isinstance(n.value, ast.Call) and norm(n.value.func) in ('dict', 'OrderedDict', 'defaultdict'))):
+            for t in n.targets:
+                d = dotted(t)
+                if d and d.startswith(init.params[0] + '.'):
+                    dict_fields.add(d.split('.', 1)[1])
+    w.dict_fields = dict_fields
     for st in walk_shallow(start.node):
         if isinstance(st, ast.Assign) and isinstance(st.value, ast.Call) and isinstance(st.value.func, ast.Name) and st.value.func.id == ih.name:
             a = {}
@@ -90,7 +100,7 @@ def wiring(model):
                 a[kw.arg] = kw.value
             vals = {k: dotted(v) for k, v in a.items()}
             handle = dotted(st.targets[0])
-            reg = [v for v in vals.values() if v and v.split('.', 1)[-1] in w.registry.values()]
+            reg = [v for v in vals.values() if v and v.split('.', 1)[-1] in dict_fields]
             if len(reg) != 1:
                 raise AnalysisError('start: a thread is created without exactly one subscription registry')
             regattr = reg[0].split('.', 1)[1]
@@ -102,9 +112,12 @@ def wiring(model):
             w.threads[regattr] = {'runner': fab.methods[runner[0].split('.', 1)[1]], 'handle': handle.split('.', 1)[1] if handle else None,
                                   'queue': [o.split('.', 1)[1] for o in others if 'queue' in o], 'call': st.value, 'args': a,
                                   'handle_arg': [k for k, v in vals.items() if v == handle]}
-    if set(w.threads) != set(w.registry.values()):
-        raise AnalysisError('start: threads per registry not identified (%s vs %s)' % (sorted(w.threads), sorted(w.registry.values())))
+    if len(w.threads) != 2:
+        raise AnalysisError('start: expected two delivery threads, found %s' % sorted(w.threads))
+    # subscribe must write, per kind, a registry that one of the threads was started with - and a different one per kind
+    w.consistent = set(w.threads) == set(w.registry.values()) and len(set(w.registry.values())) == 2
     w.kind_of_runner = {}
     for kind, reg in w.registry.items():
-        w.kind_of_runner[w.threads[reg]['runner']] = kind
+        if reg in w.threads:
+            w.kind_of_runner[w.threads[reg]['runner']] = kind
     return w
